@@ -136,8 +136,87 @@ let gc_enum nmax emax hmax depth =
   done;
   Printf.eprintf "gc_enum: %d scripts, %d distinct states\n" !emitted (Hashtbl.length seen)
 
+(* seeded random valid gc scripts (all choices from one PRNG state) *)
+let gc_rand seed count maxlen nmax emax hmax =
+  Random.init seed;
+  for k = 1 to count do
+    Printf.printf "# r%d_%d\n" seed k;
+    let len = 3 + Random.int (max 1 (maxlen - 2)) in
+    let s = ref sinit and stop = ref false and i = ref 0 in
+    while not !stop && !i < len do
+      incr i;
+      let n = List.length !s.g.objs in
+      let pick () =
+        let r = Random.int 100 in
+        let o () = nat_of_int (Random.int (max 1 n)) in
+        if n = 0 || (r < 14 && n < nmax) then GCreate
+        else if r < 24 then GClone (o ())
+        else if r < 44 then GDrop (o ())
+        else if r < 70 then GAddEdge (o (), o ())
+        else if r < 80 then GRemoveEdge (o (), nat_of_int (Random.int (max 1 emax)))
+        else if r < 88 then GUpgrade (o ())
+        else GCollect in
+      let rec valid_pick tries =
+        let op = pick () in
+        let ok = svalid !s op && (match op with
+            | GClone o -> int_of_nat (ext_of !s o) < hmax
+            | GAddEdge (a, _) -> List.length (List.nth !s.g.objs (int_of_nat a)).edges < emax
+            | _ -> true) in
+        if ok || tries = 0 then op else valid_pick (tries - 1) in
+      let op = valid_pick 20 in
+      print_endline (string_of_gop op);
+      (match sstep !s op with Ok s1 -> s := s1 | _ -> stop := true)
+    done;
+    print_endline "collect";
+    print_endline "---"
+  done
+
+(* graph families for C16: ladders of diamonds, fans, chains, cyclic variants, of size n; every
+   object's handle is dropped except optionally the first; then one collection *)
+let gc_family kind n keep =
+  Printf.printf "# %s_%d_%s\n" kind n (if keep then "live" else "dead");
+  let create k = for _ = 1 to k do print_endline "create" done in
+  let edge a b = Printf.printf "edge %d %d\n" a b in
+  let total =
+    match kind with
+    | "ladder" | "ladder_cyc" ->
+      (* levels of two objects: (2i+1, 2i+2) both point to both of the next level; 0 is the top *)
+      let levels = n in
+      create (1 + 2 * levels);
+      if levels > 0 then begin edge 0 1; edge 0 2 end;
+      for i = 0 to levels - 2 do
+        let a = 2 * i + 1 and b = 2 * i + 2 in
+        edge a (a + 2); edge a (b + 2); edge b (a + 2); edge b (b + 2)
+      done;
+      if kind = "ladder_cyc" && levels > 0 then begin edge (2 * levels - 1) 0; edge (2 * levels) 0 end;
+      1 + 2 * levels
+    | "fan" | "fan_cyc" ->
+      create (n + 2);
+      for i = 1 to n do edge 0 i; edge i (n + 1) done;
+      if kind = "fan_cyc" then edge (n + 1) 0;
+      n + 2
+    | "chain" | "chain_cyc" ->
+      create (n + 1);
+      for i = 0 to n - 1 do edge i (i + 1) done;
+      if kind = "chain_cyc" then edge n 0;
+      n + 1
+    | "clique" ->
+      create n;
+      for i = 0 to n - 1 do for j = 0 to n - 1 do edge i j done done;
+      n
+    | _ -> failwith "family" in
+  for i = total - 1 downto (if keep then 1 else 0) do Printf.printf "drop %d\n" i done;
+  print_endline "collect";
+  if keep then begin print_endline "drop 0"; print_endline "collect" end;
+  print_endline "---"
+
 let () =
   match Array.to_list Sys.argv with
+  | _ :: "gc-rand" :: seed :: count :: maxlen :: nmax :: emax :: hmax :: _ ->
+    gc_rand (int_of_string seed) (int_of_string count) (int_of_string maxlen) (int_of_string nmax)
+      (int_of_string emax) (int_of_string hmax)
+  | _ :: "gc-family" :: kind :: n :: keep :: _ ->
+    gc_family kind (int_of_string n) (keep = "live")
   | _ :: "gc-run" :: _ ->
     List.iter (run_gc_script stdout) (read_scripts stdin)
   | _ :: "gc-enum" :: n :: e :: h :: d :: _ ->
